@@ -24,8 +24,9 @@ RULE = (
 )
 ASSUMPTIONS = [
     "float64 (jax_enable_x64), CPU",
-    "closed form evaluated with the mechanism's own public rate functions (m_gate, ...) recombined in "
-    "NumPy; the rate functions themselves are judged by C04",
+    "closed form evaluated with the mechanism's own public rate functions (m_gate, ...) recombined in NumPy (1e-12), and - for v in "
+    "[-150,100] - with the published rates of vp/ref/mech.py (1e-5: an error of a rate function that moves the update, e.g. cancellation "
+    "one ulp away from a singular voltage); CaT tau_u uses the saturated form of open finding N6",
     "synapses have no public rate function: Abbott&Marder s_inf/tau transcribed in vp/ref/mech.py",
     "tolerance 1e-12 absolute plus the conditioning of tau=(1-s_inf)/k_minus for synapses",
     "an exception from update_states is a violation (the property says the update returns a value)",
@@ -318,6 +319,25 @@ def _judge_direct(spec, out):
                 out.violate("raises", f"{mech}.{g}_gate raised {e2.short()}", etype=e2.etype, frame=e2.frame)
                 continue
         _judge_gate(out, spec, g, v, dt, S[:, i], s_new, x_inf, tau, extra)
+        if not is_syn and not out.violations:
+            # the gate's ODE is defined by the PUBLISHED rates: compare with the closed form evaluated with the
+            # reference kinetics (R2) too, inside C04's validated voltage range. An error of the rate function that
+            # moves the update by more than 1e-5 (e.g. cancellation next to a singular voltage) shows up here.
+            inr = (v >= -150.0) & (v <= 100.0)
+            if inr.any():
+                gfun = R2.CHANNELS[mech]["gates"][g]
+                if mech == "CaT":
+                    kind, a_, b_ = gfun(v[inr], {k: a[inr] for k, a in params_np.items()}, saturate_at=20.0)  # open finding N6
+                else:
+                    kind, a_, b_ = gfun(v[inr], {k: a[inr] for k, a in params_np.items()})
+                xr, tr = R2.steady_tau(kind, a_, b_)
+                want = R2.exp_update(S[inr, i], dt, xr, tr)
+                bad = ~(np.abs(s_new[inr] - want) <= 1e-5)
+                out.evals += int(inr.sum())
+                if bad.any():
+                    j = int(np.argmax(bad))
+                    out.violate("closed-form-published", f"{mech}.{g}: v={v[inr][j]!r} dt={dt!r} s={S[inr, i][j]!r}: got {s_new[inr][j]!r}, closed form with the "
+                                f"published rates {want[j]!r} (x_inf={xr[j]!r}, tau={tr[j]!r})")
         out.evals += n
         for j in range(n):
             near, cls = _classes(mech, spec["params"], v[j], dt, S[j])
